@@ -849,6 +849,9 @@ class Orientation(Misorientation):
         `dp = dparr.compute()`.
         """
         symmetry = _get_unique_symmetry_elements(other.symmetry, self.symmetry)
+        # As in Rotation.dot_outer(), improper symmetry elements do not
+        # relate two (proper) orientations
+        symmetry = symmetry[~symmetry.improper]
         M = other._outer_dask(~self, chunk_size=chunk_size)
 
         # Summation subscripts
